@@ -20,23 +20,31 @@ Sizes == 0..K \cup {HUGE}
 HasSlen(fn) == fn \in NCopyFns \cup NCatFns \cup FldFns
 HasDstr(fn) == fn \in CatFns \cup NCatFns
 Eff(x) == IF x = HUGE THEN 0 ELSE x
+Width(fn) == IF fn \in {"memcpy16_s", "memmove16_s", "memset16_s", "memzero16_s"} THEN 2
+             ELSE IF fn \in {"memcpy32_s", "memmove32_s", "memset32_s", "memzero32_s", "wmemcpy_s", "wmemmove_s"} \/ SubSeq(fn, 1, 3) = "wcs" THEN 4
+             ELSE 1
 
 Truthful(c) ==
   LET a == c.pre IN
   /\ (c.d # NULLP /\ c.dmax # HUGE) => c.d + c.dmax - 1 <= N
   /\ (c.d # NULLP /\ c.dbos # UNK) => c.d + c.dbos - 1 <= N
   /\ (c.s # NULLP /\ c.sbos # UNK) => c.s + c.sbos - 1 <= N
-  /\ c.s # NULLP =>
+  /\ (c.s # NULLP /\ c.fn \in StrCopyFns) =>
        LET room == IF HasDstr(c.fn) /\ c.d # NULLP THEN Eff(c.dmax) - ScanLen(a, c.d, Eff(c.dmax)) ELSE Eff(c.dmax)
            lim == IF HasSlen(c.fn) /\ c.slen # HUGE THEN Min(c.slen, room) ELSE room
        IN c.s + Min(ScanLen(a, c.s, lim) + 1, lim) - 1 <= N
+  /\ (c.s # NULLP /\ c.fn \in MemCpyFns \cup MemMoveFns /\ c.slen # HUGE) => c.s + c.slen - 1 <= N
+  /\ (c.s # NULLP /\ c.fn = "memccpy_s" /\ c.n # HUGE) => c.s + c.n - 1 <= N
 
 Init == st \in {[fn |-> "init", f |-> fn, d |-> d] : fn \in Fns, d \in 0..N}
 
-BosChoices(x) == IF BosMode = 0 \/ x = HUGE THEN {UNK} ELSE {UNK, x, x + 1} \cup (IF x > 0 THEN {x - 1} ELSE {})
+BosChoices(x) == IF BosMode = 0 \/ x = HUGE \/ x = 0 THEN {UNK} ELSE {UNK, x, x + 1} \cup (IF x > 1 THEN {x - 1} ELSE {})
+Case(fn, d, dmax, s, slen, c, n, dbos, sbos, flags, a) ==
+  [fn |-> fn, w |-> Width(fn), d |-> d, dmax |-> dmax, s |-> s, slen |-> slen, c |-> c, n |-> n,
+   dbos |-> dbos, sbos |-> sbos, flags |-> flags, pre |-> a, slack |-> 1]
 
-Next ==
-  /\ st.fn = "init"
+NextStrCopy ==
+  /\ st.f \in StrCopyFns
   /\ \E dmax \in Sizes, s \in 0..N, sl \in 0..(K + 1), sterm \in BOOLEAN :
      \E slen \in (IF HasSlen(st.f) THEN Sizes \cup {K + 1} ELSE {0}),
         dl \in (IF HasDstr(st.f) THEN 0..2 ELSE {0}), dterm \in (IF HasDstr(st.f) THEN BOOLEAN ELSE {FALSE}),
@@ -45,12 +53,42 @@ Next ==
        LET d  == st.d
            a0 == IF d # NULLP /\ (dterm \/ dl > 0) /\ d + dl <= N THEN Place(Blank, d, DstStr(dl), dterm) ELSE Blank
            a  == IF s # NULLP /\ s + sl <= N + (IF sterm THEN 0 ELSE 1) THEN Place(a0, s, SrcStr(sl), sterm) ELSE a0
-           c  == [fn |-> st.f, w |-> IF SubSeq(st.f, 1, 3) = "wcs" THEN 4 ELSE 1, d |-> d, dmax |-> dmax, s |-> s, slen |-> slen,
-                  c |-> 0, n |-> 0, dbos |-> dbos, sbos |-> sbos, flags |-> flags, pre |-> a, slack |-> 1]
+           c  == Case(st.f, d, dmax, s, slen, 0, 0, dbos, sbos, flags, a)
        IN /\ (s # NULLP => s + sl <= N + (IF sterm THEN 0 ELSE 1))
           /\ (flags = 1 => dmax = 1)
           /\ Truthful(c)
           /\ st' = c
+
+NextMemCopy ==
+  /\ st.f \in MemCpyFns \cup MemMoveFns
+  /\ \E dmax \in Sizes, s \in 0..N, slen \in Sizes \cup {K + 1} :
+     \E dbos \in BosChoices(dmax), sbos \in BosChoices(slen) :
+       LET c == Case(st.f, st.d, dmax, s, slen, 0, 0, dbos, sbos, 0, Blank)
+       IN Truthful(c) /\ st' = c
+
+FillValues(fn) == {0, 65} \cup (IF fn \in {"memset_s", "strset_s", "strnset_s"} THEN {256}
+                              ELSE IF fn = "memset16_s" THEN {300, 65536} ELSE IF fn \in {"wcsset_s", "wcsnset_s"} THEN {300, 1114112} ELSE {70000})
+NextFill ==
+  /\ st.f \in MemSetFns \cup MemZeroFns \cup StrFillFns
+  /\ \E dmax \in Sizes, n \in (IF st.f \in MemSetFns \cup {"strnset_s", "wcsnset_s"} THEN Sizes \cup {K + 1} ELSE {0}),
+        v \in (IF st.f \in MemZeroFns \cup {"strzero_s"} THEN {0} ELSE FillValues(st.f)),
+        dl \in (IF st.f \in StrFillFns THEN 0..K ELSE {0}), dterm \in (IF st.f \in StrFillFns THEN BOOLEAN ELSE {FALSE}) :
+     \E dbos \in BosChoices(dmax) :
+       LET d == st.d
+           a == IF d # NULLP /\ (dterm \/ dl > 0) /\ d + dl <= N + (IF dterm THEN 0 ELSE 1) THEN Place(Blank, d, DstStr(dl), dterm) ELSE Blank
+           c == Case(st.f, d, dmax, 0, 0, v, n, dbos, UNK, 0, a)
+       IN /\ (dl > 0 \/ dterm) => (d # NULLP /\ d + dl <= N + (IF dterm THEN 0 ELSE 1))
+          /\ Truthful(c) /\ st' = c
+
+NextMemccpy ==
+  /\ st.f = "memccpy_s"
+  /\ \E dmax \in Sizes, s \in 0..N, n \in Sizes \cup {K + 1}, v \in {0, 98, 203}, sl \in 0..K, sterm \in BOOLEAN :
+       LET a == IF s # NULLP /\ s + sl <= N + (IF sterm THEN 0 ELSE 1) THEN Place(Blank, s, SrcStr(sl), sterm) ELSE Blank
+           c == Case(st.f, st.d, dmax, s, 0, v, n, UNK, UNK, 0, a)
+       IN /\ (s # NULLP => s + sl <= N + (IF sterm THEN 0 ELSE 1))
+          /\ Truthful(c) /\ st' = c
+
+Next == st.fn = "init" /\ (NextStrCopy \/ NextMemCopy \/ NextFill \/ NextMemccpy)
 Spec == Init /\ [][Next]_st
 
 Cases(c) == {[c EXCEPT !.slack = x] : x \in {0, 1}}
